@@ -356,6 +356,56 @@ func (r *Runner) Do(op Op) gate.Event {
 			base["list"] = r.sizedList(got, false)
 			return base
 		}, base))
+	case "stream":
+		base := gate.Event{"ev": "op", "op": "stream"}
+		st, ok := r.Sto.(blobserver.BlobStreamer)
+		if !ok {
+			base["res"] = "unsupported"
+			return fill(base)
+		}
+		return fill(r.withWatchdog(func(ctx context.Context) gate.Event {
+			ch := make(chan blobserver.BlobAndToken, 16)
+			errc := make(chan error, 1)
+			go func() { errc <- st.StreamBlobs(ctx, ch, "") }()
+			var got []blob.SizedRef
+			wrong := ""
+			for bt := range ch {
+				got = append(got, bt.Blob.SizedRef())
+				rk := r.U.RankOf(bt.Blob.Ref())
+				rc, err := bt.Blob.ReadAll(ctx)
+				if err != nil {
+					wrong = "readerr"
+					continue
+				}
+				data, _ := io.ReadAll(rc)
+				if rk < 0 || !bytes.Equal(data, r.U.ByRank(rk).Data) {
+					wrong = "wrongbytes"
+					base["detail"] = fmt.Sprintf("streamed blob %v has wrong bytes (%d)", bt.Blob.Ref(), len(data))
+				}
+			}
+			err := <-errc
+			base["res"] = Classify(err)
+			if err != nil {
+				base["detail"] = err.Error()
+				return base
+			}
+			if wrong != "" {
+				base["res"] = wrong
+			}
+			// StreamBlobs promises no particular order and (unlike enumerate) no uniqueness: a blob that was
+			// appended twice to a pack is streamed twice. Identical duplicates are folded; "dups" keeps the count.
+			seen := map[blob.SizedRef]bool{}
+			var uniq []blob.SizedRef
+			for _, sr := range got {
+				if !seen[sr] {
+					seen[sr] = true
+					uniq = append(uniq, sr)
+				}
+			}
+			base["dups"] = len(got) - len(uniq)
+			base["list"] = r.sizedList(uniq, true)
+			return base
+		}, base))
 	case "remove":
 		base := gate.Event{"ev": "op", "op": "remove", "bs": intsAny(op.Bs)}
 		return fill(r.withWatchdog(func(ctx context.Context) gate.Event {
